@@ -1277,19 +1277,66 @@ def sliceguard(rep, c, sfx):
                                 conds.append((a["guard"], bid))
                 for (cnd, rid) in conds:
                     for y in walk(cnd):
-                        if kind(y) == "Binary" and y["op"] in ("<", "<=", ">", ">="):
-                            sides = [peel(y["l"]), peel(y["r"])]
-                            names = sorted(s["name"] for s in sides if kind(s) == "Field" and hirq.local_id(s["base"]) == rid)
-                            if names == ["end", "start"]:
-                                ordered = True
+                        ot = order_test(y)
+                        if ot is not None and ot[0] == rid:
+                            ordered = True
             if not ordered:
                 r.violation(key, where(x),
                             "ParserState::%s indexes the stack with `%s` without having compared its end with its start: a "
                             "reversed range (PEEK[-1..1] on a stack of three) panics instead of matching the empty slice"
                             % (b["name"], idx["name"]))
+                continue
+            # the outcome where the test finds the range reversed: the documented meaning is the empty slice, which
+            # matches - every path on which an ordering test has established end < start (or end <= start) answers Ok
+            try:
+                paths = hirq.exits(hirq.PathEnum(b).paths())
+            except hirq.TooManyPaths:
+                r.note("%s: too many paths for the reversed-range outcome clause" % b["name"])
+                continue
+            r.instance(key + ":reversed-matches", where(x), "%d paths" % len(paths))
+            for (ev, o) in paths:
+                rev = None
+                for e in ev:
+                    if e.kind == "cond":
+                        ot = order_test(peel(e.node))
+                        if ot is not None and ot[1][bool(e.extra)] in ("rev", "rev-or-eq"):
+                            rev = e.node
+                if rev is None:
+                    continue
+                v = hirq.path_value(ev)
+                v = peel(v) if v is not None else None
+                if v is not None and kind(v) == "Call" and str(callee(v)).endswith("Result::Err"):
+                    r.violation(key + ":reversed-matches", where(rev),
+                                "ParserState::%s answers Err on the path where `%s` has found the range reversed: "
+                                "PEEK[a..b] whose end lies before its start is documented to match the empty string, and a "
+                                "rule using it (PEEK[1..-1] at depth 1) is now rejected" % (b["name"], hirq.expr_text(peel(rev))))
+                    break
     if n == 0:
         r.note("no range-indexed slice of the stack")
         r.floor = 0
+
+
+def order_test(y):
+    """y compares the two ends of one range-typed local: (local id, {True: implied, False: implied}) with implied in
+    'rev' (end < start), 'rev-or-eq', 'fwd', 'fwd-or-eq'; None otherwise.  `range.is_empty()` is `!(start < end)`."""
+    y = peel(y)
+    if kind(y) == "Unary" and y.get("op") == "!":
+        ot = order_test(y["e"])
+        return None if ot is None else (ot[0], {True: ot[1][False], False: ot[1][True]})
+    if kind(y) == "MethodCall" and y["m"] == "is_empty" and "Range<" in str(y.get("rty", "")) and \
+            hirq.local_id(y["recv"]) is not None:
+        return (hirq.local_id(y["recv"]), {True: "rev-or-eq", False: "fwd"})
+    if kind(y) == "Binary" and y["op"] in ("<", "<=", ">", ">="):
+        l, rr = peel(y["l"]), peel(y["r"])
+        if kind(l) == "Field" and kind(rr) == "Field" and hirq.local_id(l["base"]) is not None \
+                and hirq.local_id(l["base"]) == hirq.local_id(rr["base"]) and {l["name"], rr["name"]} == {"start", "end"}:
+            op = y["op"]
+            if l["name"] == "start":
+                op = {"<": ">", "<=": ">=", ">": "<", ">=": "<="}[op]
+            table = {"<": {True: "rev", False: "fwd-or-eq"}, "<=": {True: "rev-or-eq", False: "fwd"},
+                     ">": {True: "fwd", False: "rev-or-eq"}, ">=": {True: "fwd-or-eq", False: "rev"}}
+            return (hirq.local_id(l["base"]), table[op])
+    return None
 
 
 def narrowing_char_casts(body):
